@@ -477,7 +477,17 @@ def replay_one(contract, registry, case, ob, kwargs):
             for txt in list(contract.requires) + list(case.assume):
                 if not eval_clause_py(contract, txt, kwargs, None, ghosts):
                     return res
+        except Exception as e:  # noqa
+            res["eval_error"] = "%s: %s" % (type(e).__name__, e)
+            return res
+        try:
             holds = eval_clause_py(contract, ob.note, kwargs, real["value"], ghosts, real=real)
+        except (KeyError, IndexError, AttributeError) as e:
+            if ob.extra.get("spec_raises") != type(e).__name__:
+                res["eval_error"] = "%s: %s" % (type(e).__name__, e)
+                return res
+            holds = False  # the engine predicted it: on this input the clause subscripts an entry the real result does not have
+            res["clause_raises"] = "%s: %s" % (type(e).__name__, e)
         except Exception as e:  # noqa
             res["eval_error"] = "%s: %s" % (type(e).__name__, e)
             return res
